@@ -54,8 +54,63 @@ def err_class(e):
     return "other:" + e
 
 
+MODEL_TABLES = """From Coq Require Import ZArith List.
+From HK Require Import Model.Queue Model.TwoCalls.
+Import ListNotations.
+Open Scope Z_scope.
+Definition T1 := Eval vm_compute in lease_vs_cancel_table.
+Definition T2 := Eval vm_compute in filter_vs_change_table.
+Print T1.
+Print T2.
+"""
+
+
+def model_tables(ctx, info):
+    """the outcomes of the two serial orders, evaluated from Model/Queue.step (Model/TwoCalls.v); None when the model cannot be evaluated"""
+    import re
+    if not info.get("coq_ok"):
+        return None
+    rc, out = C.coq_eval_cases(ctx, "twocalls", MODEL_TABLES, timeout=300)
+    if rc != 0:
+        ctx.notes.append("Model/TwoCalls.v could not be evaluated: " + out[-300:])
+        return None
+    flat = " ".join(out.split())
+    t = {}
+    for name in ("T1", "T2"):
+        m = re.search(name + r" = (\[.*?\]\]) : list", flat)
+        if not m:
+            ctx.notes.append("Model/TwoCalls.v: table %s not found in the output" % name)
+            return None
+        t[name] = [[int(x) for x in re.findall(r"-?\d+", row)] for row in re.findall(r"\[([^\[\]]*)\]", m.group(1))]
+    # T1: for a in ack,nack,extend,dead; stale in T,F; deliv in T,F: [A first, B first]
+    lvc = {}
+    k = 0
+    for a in ("ack", "nack", "extend", "dead"):
+        for stale in (True, False):
+            for deliv in (True, False):
+                rows = t["T1"][k:k + 2]
+                k += 2
+                lvc[(a, stale, deliv)] = {({0: "ok", 1: "expired", 2: "notfound"}.get(r[0], "other"), r[1],
+                                           {0: "", 1: "queued", 2: "leased", 3: "delivered", 4: "dead", 5: "canceled"}[r[2]]) for r in rows}
+    fvc = {}
+    k = 0
+    for sc in ("requeue-vs-resume-and-lease", "resume-vs-requeue-and-lease", "cancel-vs-ack"):
+        rows = t["T2"][k:k + 2]
+        k += 2
+        fvc[sc] = {(r[0], r[1], r[2], {0: "", 1: "queued", 2: "leased", 3: "delivered", 4: "dead", 5: "canceled"}[r[3]]) for r in rows}
+    return {"lease_vs_cancel": lvc, "filter_vs_change": fvc}
+
+
 def run(ctx, info):
     cases = gen_cases(ctx.tier)
+    tables = model_tables(ctx, info)
+    if tables is not None:
+        for c in cases:
+            if tables["lease_vs_cancel"][(c["a_op"], c["stale"], c["delivered"])] != allowed(c):
+                C.report(ctx, "two-stores:table-differs-from-model", "the table of serial outcomes written out in lib/twostores.py differs from Model/TwoCalls.v for %s: %s vs %s" %
+                         (c, sorted(allowed(c)), sorted(tables["lease_vs_cancel"][(c["a_op"], c["stale"], c["delivered"])])),
+                         {"kind": "obligation", "no_failing_input_found": True, "case": c})
+                break
     rc, out, err = C.harness_run(info["hbin"], ["two-stores"], {"dir": os.path.join(ctx.scratch, "twostores"), "cases": cases}, timeout=900)
     if rc != 0:
         raise RuntimeError("two-stores failed: " + err[-1500:])
@@ -85,6 +140,7 @@ def run(ctx, info):
                       "calls": ["store A (gateway) and store B (operator) opened on one SQLite file", "A.Enqueue(evt_1); A.Dequeue -> lease L (10 s)",
                                 "clock +%s" % ("11 s (L expired, not swept)" if c["stale"] else "1 s"),
                                 "A.%s(L) with B.%s(evt_1) run at A's clock reading no. %d" % (c["a_op"], c["b_op"], c["hook_at"])]})
+    stats["serial_outcomes_from_model"] = tables is not None
     return {"two_stores": stats}
 
 
@@ -101,6 +157,10 @@ def run_filter(ctx, info):
     object at the clock reading between the two statements.  The outcome must be that of one of the two serial orders on the queue
     model: the mutation changes - and counts - only messages that are in a state it is defined for when it changes them."""
     cases = [{"scenario": sc, "hook_at": k} for sc in FILTER_ALLOWED for k in (1, 2, 3)]
+    tables = model_tables(ctx, info)
+    if tables is not None and tables["filter_vs_change"] != FILTER_ALLOWED:
+        C.report(ctx, "two-stores-filter:table-differs-from-model", "the table of serial outcomes written out in lib/twostores.py differs from Model/TwoCalls.v: %s vs %s" %
+                 (FILTER_ALLOWED, tables["filter_vs_change"]), {"kind": "obligation", "no_failing_input_found": True})
     rc, out, err = C.harness_run(info["hbin"], ["two-stores-filter"], {"dir": os.path.join(ctx.scratch, "twostoresf"), "cases": cases}, timeout=600)
     if rc != 0:
         raise RuntimeError("two-stores-filter failed: " + err[-1500:])
